@@ -108,7 +108,7 @@ Definition resid_col (weighted : bool) (cp wd k : float) (xs ys fits : list floa
 
 
 def coq_indices(out, n_expected, run, name):
-    m = re.search(r"=\s*\((\d+),\s*\[(.*?)\]\)", out, flags=re.S)
+    m = re.search(r"=\s*\((\d+)(?:%nat)?,\s*\[(.*?)\]\)", out, flags=re.S)
     if not m or int(m.group(1)) != n_expected:
         run.obligation(f"correspondence:{name}", False, out[-2500:])
         return None
@@ -126,7 +126,7 @@ def eval_bool_cases(run, name, exprs, descr):
                 + "].\nFixpoint bad (i : nat) (l : list bool) : list nat :="
                 " match l with [] => [] | b :: t => if b then bad (S i) t "
                 "else i :: bad (S i) t end.\n"
-                "Eval vm_compute in (length cases, bad 0 cases).\n")
+                "Eval vm_compute in (List.length cases, bad 0 cases).\n")
         jobs.append((c0, len(exprs[c0:c0 + chunk]), f"{name}_{c0 // chunk}",
                      text))
     with ThreadPoolExecutor(max_workers=common.NPROC) as ex:
